@@ -3,8 +3,16 @@ C05 — an S-N curve is a continuous, decreasing, invertible capacity law.
 
 Tie: (a) the branch formulas are regenerated from qats/fatigue/sn.py by the translator and the theorems re-proved;
 (b) Float correspondence of SNCurve.n / fatigue_strength / thickness_correction / loga2 / a2 / sswitch with the model
-(generated formulas + hand-written branch skeleton) on seeded parameters, including stresses next to the transition.
-Search: the property's clauses on the implementation alone.
+(generated formulas + hand-written branch skeleton, `Model/SN.lean`: Curve.n, Curve.nArray, Curve.strength, tcorr) on seeded
+parameters, including stresses next to the transition.  The model receives the parameters as the HARNESS knows them
+(`log10(a1)` is computed here, not read back from the object).
+Search: the property's clauses on the implementation alone, in five streams:
+  main     scalar float calls: inverse, monotone, continuous, thickness-as-scaling, slope by capacity, value returned;
+  narray   `Curve.nArray` against `SNCurve.n(<ndarray / list / integer array>)`, knee values, empty, the error case;
+  spell    the same stress ranges / thickness in every container and number type, positional or keyword;
+  history  many calls on ONE curve object against a fresh object per call, caller data and earlier results untouched;
+  ctor     the same parameters through every constructor spelling / number type define the same curve.
+Every evaluation is wrapped: an exception raised by the implementation is a failing clause.
 """
 import math
 
@@ -15,9 +23,13 @@ from ..core import fbits, unfbits
 
 USES_TRANSLATOR = True
 ANCHOR_PREFIX = ("sn_",)
-RULE = ("seeded S-N curves (single / bilinear, with / without thickness parameters, built from a1 or loga1 or a dict) x stress "
-        "ranges log-uniform in [0.5, 2000] plus points at sswitch/tcorr*(1±2^-k) x thickness None / <= t_ref / > t_ref; "
-        "non-trivial = bilinear curve or thickness above reference; distinct by (curve, s, t)")
+RULE = ("seeded S-N curves (single / bilinear incl. m2 == m1 and m2 < m1, with / without thickness parameters, built from a1, loga1, "
+        "both, all-keyword, explicit None options, positional m1; parameters as float / int / numpy scalars) x stress ranges "
+        "log-uniform in [0.5, 2000], scaled by 2^±(30..200) while the capacity stays finite, points at sswitch/tcorr*(1±2^-k), "
+        "integers around the knee x thickness None / <= t_ref / == t_ref(1±2^-52) / > t_ref / 1e-6 t_ref / 1e4 t_ref, as float, int, "
+        "numpy scalar, 0-d array, positional or keyword; stress containers ndarray / list / tuple / view / reversed / 2-D / "
+        "read-only / length 0, 1 / 0-d / int64 / int32 / uint16 / float32; histories of 14 calls on one object; "
+        "non-trivial = bilinear curve or thickness above reference; distinct by (curve, s, t) or by the written-out case")
 REL = 1e-9
 
 
@@ -33,6 +45,108 @@ def close(a, b, rel=REL):
     return abs(a - b) <= rel * max(abs(a), abs(b)) + 1e-300
 
 
+# ----------------------------------------------------------------------------------------------------------------------------
+# spellings of one number / one list of numbers
+# ----------------------------------------------------------------------------------------------------------------------------
+NUMS = ("float", "int", "np", "npint")
+CTORS = ("loga1", "a1", "dict", "both", "nones", "pos")
+
+
+def sp(v, how):
+    """the number v written as python float / python int / numpy float64 / numpy int64 / 0-d array (integers only if exact)"""
+    if v is None:
+        return None
+    v = float(v)
+    integral = v.is_integer() and abs(v) < 2.0 ** 53
+    if how == "int":
+        return int(v) if integral else v
+    if how == "np":
+        return np.float64(v)
+    if how == "npint":
+        return np.int64(int(v)) if integral else np.float64(v)
+    if how == "arr0":
+        return np.array(v)
+    return v
+
+
+ARRAY_CONTS = ("ndarray", "list", "tuple", "view", "rev", "2d", "2dF", "ro", "len1", "empty")
+SCALAR_CONTS = ("float", "npfloat", "0d")
+INT_ARRAY_CONTS = ("i64", "i32", "u16", "ilist", "ituple", "f32", "imixed")
+INT_SCALAR_CONTS = ("int", "npint", "npi32")
+
+
+def container(vals, kind):
+    """(object handed to SNCurve.n, indices of `vals` in result order, expected shape)"""
+    k = len(vals)
+    a = np.array([float(v) for v in vals], dtype=float)
+    idx = list(range(k))
+    if kind == "ndarray":
+        return a, idx, (k,)
+    if kind == "list":
+        return [float(v) for v in vals], idx, (k,)
+    if kind == "tuple":
+        return tuple(float(v) for v in vals), idx, (k,)
+    if kind == "view":
+        big = np.full(2 * k + 1, 7.0)
+        big[1::2] = a
+        return big[1::2], idx, (k,)
+    if kind == "rev":
+        return a[::-1], idx[::-1], (k,)
+    if kind in ("2d", "2dF"):
+        if k % 2:
+            a, idx = a[:-1], idx[:-1]
+        b = a.reshape(2, -1)
+        return (np.asfortranarray(b) if kind == "2dF" else b), idx, b.shape
+    if kind == "ro":
+        a.setflags(write=False)
+        return a, idx, (k,)
+    if kind == "len1":
+        return a[:1], idx[:1], (1,)
+    if kind == "empty":
+        return a[:0], [], (0,)
+    if kind == "float":
+        return float(vals[0]), [0], ()
+    if kind == "npfloat":
+        return np.float64(vals[0]), [0], ()
+    if kind == "0d":
+        return np.array(float(vals[0])), [0], ()
+    # integer-valued
+    iv = [int(v) for v in vals]
+    if kind == "i64":
+        return np.array(iv, dtype=np.int64), idx, (k,)
+    if kind == "i32":
+        return np.array(iv, dtype=np.int32), idx, (k,)
+    if kind == "u16":
+        return np.array(iv, dtype=np.uint16), idx, (k,)
+    if kind == "f32":
+        return np.array(iv, dtype=np.float32), idx, (k,)
+    if kind == "ilist":
+        return list(iv), idx, (k,)
+    if kind == "ituple":
+        return tuple(iv), idx, (k,)
+    if kind == "imixed":
+        return [iv[i] if i % 2 else float(iv[i]) for i in range(k)], idx, (k,)
+    if kind == "int":
+        return iv[0], [0], ()
+    if kind == "npint":
+        return np.int64(iv[0]), [0], ()
+    if kind == "npi32":
+        return np.int32(iv[0]), [0], ()
+    raise KeyError(kind)
+
+
+def snapshot(obj):
+    if isinstance(obj, np.ndarray):
+        base = obj.base if isinstance(obj.base, np.ndarray) else obj
+        return ("nd", str(obj.dtype), obj.shape, obj.tolist(), base.tolist())
+    if isinstance(obj, (list, tuple)):
+        return (type(obj).__name__, [repr(v) for v in obj])
+    return ("scalar", repr(obj))
+
+
+# ----------------------------------------------------------------------------------------------------------------------------
+# curves
+# ----------------------------------------------------------------------------------------------------------------------------
 def gen_curve(rng):
     m1 = rng.choice([3.0, 3.5, 4.0, 5.0, round(rng.uniform(2.0, 6.0), 3)])
     loga1 = rng.choice([12.164, 11.764, 15.117, 12.592, round(rng.uniform(10.0, 17.0), 4)])
@@ -42,27 +156,63 @@ def gen_curve(rng):
     thick = rng.random() < 0.7
     te = rng.choice([0.0, 0.1, 0.15, 0.2, 0.25, 0.3, round(rng.uniform(0, 0.5), 3)]) if thick else None
     tr = rng.choice([25.0, 32.0, 16.0, 22.0]) if thick else None
-    return dict(m1=m1, loga1=loga1, m2=m2, nswitch=nsw, t_exp=te, t_ref=tr, ctor=rng.choice(["loga1", "a1", "dict"]))
+    ctor = rng.choice(["loga1", "a1", "dict"])
+    # boundary parameters: integral log a1 (so that every parameter has an integer spelling), equal slopes, far transition
+    # cycle numbers, exponent 1, a non-integral reference thickness
+    if rng.random() < 0.2:
+        loga1 = rng.choice([12.0, 13.0, 16.0, 11.0])
+    if bil and rng.random() < 0.1:
+        m2 = m1
+    if bil and rng.random() < 0.15:
+        nsw = rng.choice([1e3, 1e4, 1e10, 1e12, float(round(10 ** rng.uniform(3, 12)))])
+    if thick and rng.random() < 0.1:
+        te = rng.choice([1.0, 0.5, 0.0])
+    if thick and rng.random() < 0.1:
+        tr = rng.choice([12.5, 1.0, 150.0])
+    if rng.random() < 0.5:
+        ctor = rng.choice(CTORS)
+    num = rng.choice(["float", "float", "float", "int", "np", "npint"])
+    return dict(m1=m1, loga1=loga1, m2=m2, nswitch=nsw, t_exp=te, t_ref=tr, ctor=ctor, num=num)
 
 
-def build(c):
+def build(c, ctor=None, num=None):
     from qats.fatigue.sn import SNCurve
-    kw = dict(m1=c["m1"])
-    if c["ctor"] == "a1":
-        kw["a1"] = 10 ** c["loga1"]
-    else:
-        kw["loga1"] = c["loga1"]
+    ctor = ctor or c.get("ctor", "loga1")
+    how = num or c.get("num", "float")
+    f = lambda v: sp(v, how)
+    kw = dict(m1=f(c["m1"]))
+    if ctor in ("a1", "both"):
+        kw["a1"] = f(10 ** c["loga1"])
+    if ctor != "a1":
+        kw["loga1"] = f(c["loga1"])
     if c["m2"] is not None:
-        kw.update(m2=c["m2"], nswitch=c["nswitch"])
+        kw.update(m2=f(c["m2"]), nswitch=f(c["nswitch"]))
     if c["t_exp"] is not None:
-        kw.update(t_exp=c["t_exp"], t_ref=c["t_ref"])
+        kw.update(t_exp=f(c["t_exp"]), t_ref=f(c["t_ref"]))
+    if ctor == "nones":
+        # options that are given but say nothing: explicit None, and a transition cycle number on a single-slope curve
+        if c["m2"] is None:
+            kw.update(m2=None, nswitch=f(1e7))
+        if c["t_exp"] is None:
+            kw.update(t_exp=None, t_ref=None)
+    if ctor in ("dict", "nones"):
+        return SNCurve(**dict(kw, name="x")), kw
+    if ctor == "pos":
+        rest = {k: v for k, v in kw.items() if k != "m1"}
+        return SNCurve("x", kw["m1"], **rest), kw
     return SNCurve("x", **kw), kw
 
 
-def curve_tokens(c, sn):
+def model_loga1(c):
+    """log10(a1) as the harness computes it from what it hands to the constructor"""
+    if c.get("ctor", "loga1") in ("a1", "both"):
+        return math.log10(10 ** c["loga1"])
+    return c["loga1"]
+
+
+def curve_tokens(c, sn=None):
     o = lambda v: "-" if v is None else fbits(v)
-    # the model receives loga1 as the implementation stores it (a1 constructor: log10(a1))
-    return " ".join([fbits(c["m1"]), fbits(float(sn.loga1)), o(c["m2"]), o(c["nswitch"]), o(c["t_exp"]), o(c["t_ref"])])
+    return " ".join([fbits(c["m1"]), fbits(model_loga1(c)), o(c["m2"]), o(c["nswitch"]), o(c["t_exp"]), o(c["t_ref"])])
 
 
 def val(o):
@@ -72,10 +222,397 @@ def val(o):
     return o
 
 
+def pub(c):
+    return {k: v for k, v in c.items() if not k.startswith("_")}
+
+
+def tfac(c, t):
+    """the thickness factor the PROPERTY prescribes: 1 without thickness or at / below t_ref, (t/t_ref)^k above"""
+    if t is None or c["t_ref"] is None:
+        return 1.0
+    return 1.0 if t <= c["t_ref"] else (t / c["t_ref"]) ** c["t_exp"]
+
+
+def knee(c):
+    """transition stress, harness side (only used to place inputs)"""
+    if c["m2"] is None:
+        return None
+    return 10 ** ((model_loga1(c) - math.log10(c["nswitch"])) / c["m1"])
+
+
+def finite_range(c, s):
+    """is the capacity at s (times any factor in [1, 2^14]) well inside the float range on both branches? (input filter)"""
+    la1 = model_loga1(c)
+    xs = []
+    for f in (1.0, 2.0 ** 14):
+        xs.append(la1 - c["m1"] * math.log10(s * f))
+        if c["m2"] is not None:
+            la2 = c["m2"] / c["m1"] * la1 + (1 - c["m2"] / c["m1"]) * math.log10(c["nswitch"])
+            xs.append(la2 - c["m2"] * math.log10(s * f))
+    return max(abs(x) for x in xs) < 280
+
+
+def valid_t(c, t):
+    return t is None or c["t_ref"] is not None
+
+
+def exc(e):
+    return "%s: %s" % (type(e).__name__, str(e)[:120])
+
+
+# ----------------------------------------------------------------------------------------------------------------------------
+# stream "spell": one list of stress ranges, one thickness, one container, one thickness spelling, one call style
+# ----------------------------------------------------------------------------------------------------------------------------
+def call_n(sn, obj, t, tspell, call):
+    if t is None:
+        return sn.n(obj) if call == "pos" else sn.n(obj, t=None)
+    ts = sp(t, tspell)
+    return sn.n(obj, ts) if call == "pos" else sn.n(obj, t=ts)
+
+
+def run_spell(case):
+    """-> list of (oracle, expected, observed)"""
+    c, vals, t = case["curve"], case["vals"], case.get("t")
+    out = []
+    try:
+        ref_sn, _ = build(c)
+    except Exception as e:
+        return [("a valid S-N curve can be constructed", "an SNCurve", exc(e))]
+    ref, ref_err = [], None
+    for v in vals:
+        try:
+            ref.append(float(ref_sn.n(float(v), t=t)))
+        except ValueError as e:
+            if valid_t(c, t):
+                return [("n returns a value for every valid curve, stress range and thickness", "a value", exc(e))]
+            ref_err = e
+            break
+        except Exception as e:
+            return [("n returns a value for every valid curve, stress range and thickness", "a value", exc(e))]
+    sn, _ = build(c)
+    obj, idx, shape = container(vals, case["cont"])
+    snap = snapshot(obj)
+    try:
+        res = call_n(sn, obj, t, case.get("tspell", "float"), case.get("call", "kw"))
+    except Exception as e:
+        if ref_err is not None and isinstance(e, ValueError):
+            return out
+        return [("scalar and array evaluation agree: n(<%s>) evaluates like n(<float>) element by element" % case["cont"],
+                 "values" if ref_err is None else "ValueError", exc(e))]
+    if ref_err is not None:
+        return [("an undefined thickness correction is refused in every spelling of the request (scalar or array, any number type)", "ValueError", repr(np.asarray(res).tolist()))]
+    exp = [ref[i] for i in idx]
+    got = np.asarray(res)
+    rtol = 1e-3 if case["cont"] == "f32" else 1e-13
+    ok = got.shape == tuple(shape) and got.dtype.kind == "f"
+    if ok:
+        g = got.astype(float).ravel().tolist()
+        ok = all(close(a, b, rtol) for a, b in zip(exp, g))
+    if not ok:
+        out.append(("scalar and array evaluation agree: n(<%s>, thickness as %s, %s) equals the scalar float evaluation element by element "
+                    "(same shape, float result)" % (case["cont"], case.get("tspell", "float"), case.get("call", "kw")),
+                    exp, [str(got.dtype), list(got.shape), got.ravel().tolist()]))
+    if snapshot(obj) != snap:
+        out.append(("evaluating n does not modify the caller's stress ranges", snap[-1], snapshot(obj)[-1]))
+    return out
+
+
+def gen_spell(rng, c, quick):
+    sw = knee(c)
+    cases = []
+    if c["t_ref"] is None:
+        ts = [None, 30.0]
+    else:
+        tr = c["t_ref"]
+        ts = [None, rng.choice([tr, tr * rng.uniform(0.2, 1.0), float(math.floor(tr))]),
+              rng.choice([100.0, 4.0 * tr, tr * rng.uniform(1.0, 6.0), float(math.ceil(tr) + rng.randint(1, 80))])]
+    for t in ts:
+        tc = tfac(c, t)
+        vals = [10 ** rng.uniform(-0.3, 3.3) for _ in range(3)]
+        ints = [rng.randint(1, 3000) for _ in range(3)]
+        if sw is not None:
+            k0 = sw / tc
+            vals += [k0, k0 * (1 - 2.0 ** -52), k0 * (1 + 2.0 ** -52), k0 * 0.7, k0 * 1.3, sw]
+            ints += [max(1, math.floor(k0)), math.ceil(k0) + (1 if math.ceil(k0) == math.floor(k0) else 0), max(1, math.floor(k0) - 1),
+                     max(1, round(k0))]
+        rng.shuffle(vals)
+        rng.shuffle(ints)
+        ints = [min(i, 60000) for i in ints]
+        tspells = ["float", "np", "arr0"] + (["int", "npint"] if t is not None and float(t).is_integer() else [])
+        fl = list(ARRAY_CONTS) + list(SCALAR_CONTS)
+        il = list(INT_ARRAY_CONTS) + list(INT_SCALAR_CONTS)
+        if quick:
+            fl = rng.sample(fl, 6)
+            il = rng.sample(il, 5)
+        for cont in fl:
+            cases.append(dict(curve=pub(c), kind="spell", vals=vals, cont=cont, t=t, tspell=rng.choice(tspells),
+                              call=rng.choice(["kw", "pos"])))
+        for cont in il:
+            cases.append(dict(curve=pub(c), kind="spell", vals=[float(i) for i in ints], cont=cont, t=t, tspell=rng.choice(tspells),
+                              call=rng.choice(["kw", "pos"])))
+    return cases
+
+
+# ----------------------------------------------------------------------------------------------------------------------------
+# stream "history": many calls on one object, each compared with the same call on a fresh object
+# ----------------------------------------------------------------------------------------------------------------------------
+def do_op(sn, op):
+    """-> (tag, value, caller_object, snapshot_before)"""
+    t = op.get("t")
+    ts = sp(t, op.get("tspell", "float"))
+    kind = op["op"]
+    if kind == "n":
+        obj, idx, shape = container(op["vals"], op["cont"])
+        snap = snapshot(obj)
+        r = call_n(sn, obj, t, op.get("tspell", "float"), op.get("call", "kw"))
+        return np.array(r, dtype=float), obj, snap
+    if kind == "strength":
+        v = sp(op["n"], op.get("nspell", "float"))
+        r = sn.fatigue_strength(v, ts) if op.get("call") == "pos" else sn.fatigue_strength(v, t=ts)
+        return np.array(r, dtype=float), None, None
+    if kind == "tcorr":
+        return np.array(sn.thickness_correction(ts), dtype=float), None, None
+    raise KeyError(kind)
+
+
+def run_history(case):
+    c, ops = case["curve"], case["ops"]
+    out = []
+    try:
+        sn, _ = build(c)
+    except Exception as e:
+        return [("a valid S-N curve can be constructed", "an SNCurve", exc(e))]
+    kept = []
+    for i, op in enumerate(ops):
+        fresh, _ = build(c)
+        try:
+            want = do_op(fresh, op)[0]
+            want_tag = "value"
+        except Exception as e:
+            want, want_tag = None, type(e).__name__
+        try:
+            got, obj, snap = do_op(sn, op)
+            got_tag = "value"
+        except Exception as e:
+            got, obj, snap, got_tag = None, None, None, type(e).__name__
+        expect_value = op["op"] == "tcorr" and c["t_ref"] is not None or op["op"] != "tcorr" and valid_t(c, op.get("t"))
+        if expect_value and got_tag != "value":
+            out.append(("step %d (%s): a valid request returns a value, also after other requests on the same curve object" % (i, op["op"]),
+                        "a value", got_tag))
+        elif want_tag != got_tag or (got is not None and not (want.shape == got.shape and np.array_equal(want, got))):
+            out.append(("step %d (%s): a curve object answers like a freshly built curve whatever was asked before (n, fatigue_strength, "
+                        "thickness_correction depend on their arguments and the curve parameters only)" % (i, op["op"]),
+                        want_tag if want is None else want.tolist(), got_tag if got is None else got.tolist()))
+        if obj is not None and snapshot(obj) != snap:
+            out.append(("step %d: evaluating n does not modify the caller's stress ranges" % i, snap[-1], snapshot(obj)[-1]))
+        if got is not None and op["op"] == "n":
+            # the object RETURNED to the caller (not a copy) is kept and looked at again after the later steps
+            try:
+                r = call_n(sn, container(op["vals"], op["cont"])[0], op.get("t"), op.get("tspell", "float"), op.get("call", "kw"))
+                if isinstance(r, np.ndarray):
+                    kept.append((i, r, r.copy()))
+            except Exception:
+                pass
+    for i, r, r0 in kept:
+        if not np.array_equal(r, r0):
+            out.append(("the array returned at step %d is not changed by later evaluations" % i, r0.tolist(), r.tolist()))
+    return out
+
+
+def shrink_history(case, res):
+    """drop steps one at a time as long as some clause still fails (shorter failing input for the report)"""
+    ops = list(case["ops"])
+    changed = True
+    while changed and len(ops) > 1:
+        changed = False
+        for i in range(len(ops) - 1, -1, -1):
+            trial = dict(case, ops=ops[:i] + ops[i + 1:])
+            try:
+                r = run_history(trial)
+            except Exception:
+                r = []
+            if r:
+                ops, res, changed = trial["ops"], r, True
+                break
+    return dict(case, ops=ops), res
+
+
+def gen_history(rng, c, nops):
+    sw = knee(c)
+    tr = c["t_ref"]
+    if tr is None:
+        tpool = [None, None, None, 30.0, 25.0]
+    else:
+        tpool = [None, tr, tr * 0.5, 100.0, 4.0 * tr, float(math.ceil(tr) + rng.randint(1, 80)), tr * rng.uniform(1.0, 6.0),
+                 tr * (1 + 2.0 ** -52)]
+    ops = []
+    for _ in range(nops):
+        t = rng.choice(tpool)
+        tsp = rng.choice(["float", "np", "arr0"] + (["int", "npint"] if t is not None and float(t).is_integer() else []))
+        call = rng.choice(["kw", "pos"])
+        r = rng.random()
+        tc = tfac(c, t)
+        if r < 0.55:
+            if rng.random() < 0.6:
+                vals = [10 ** rng.uniform(-0.3, 3.3) for _ in range(rng.randint(1, 5))]
+                if sw is not None:
+                    vals += [sw / tc, sw / tc * (1 - 2.0 ** -40), sw / tc * 1.2, sw]
+                rng.shuffle(vals)
+                cont = rng.choice(ARRAY_CONTS + SCALAR_CONTS)
+            else:
+                vals = [float(rng.randint(1, 3000)) for _ in range(rng.randint(1, 5))]
+                if sw is not None:
+                    vals += [float(min(60000, max(1, math.floor(sw / tc)))), float(min(60000, math.ceil(sw / tc) + 1))]
+                rng.shuffle(vals)
+                cont = rng.choice(INT_ARRAY_CONTS + INT_SCALAR_CONTS)
+            ops.append(dict(op="n", vals=vals, cont=cont, t=t, tspell=tsp, call=call))
+        elif r < 0.85:
+            n = rng.choice([10 ** rng.uniform(3, 10), float(rng.randint(1000, 10 ** 9))] +
+                           ([c["nswitch"], c["nswitch"] * (1 + 2.0 ** -30), c["nswitch"] * (1 - 2.0 ** -30)] if sw is not None else []))
+            ops.append(dict(op="strength", n=n, nspell=rng.choice(["float", "np", "arr0", "int", "npint"]), t=t, tspell=tsp, call=call))
+        else:
+            if t is None:
+                t, tsp = (30.0 if tr is None else tr * 2.0), "float"
+            ops.append(dict(op="tcorr", t=t, tspell=tsp))
+    return dict(curve=pub(c), kind="history", ops=ops)
+
+
+# ----------------------------------------------------------------------------------------------------------------------------
+# stream "ctor": the same parameters through another constructor spelling / number type
+# ----------------------------------------------------------------------------------------------------------------------------
+def run_ctor(case):
+    c = case["curve"]
+    out = []
+    try:
+        ref, _ = build(c, ctor="loga1", num="float")
+        sn, _ = build(c, ctor=case["ctor2"], num=case["num2"])
+    except Exception as e:
+        return [("a valid S-N curve can be constructed from a1 or loga1, with parameters as float / int / numpy scalars "
+                 "(constructor spelling %s, numbers as %s)" % (case["ctor2"], case["num2"]), "an SNCurve", exc(e))]
+    tol = 1e-11
+    try:
+        if not close(float(sn.a1), 10 ** float(sn.loga1), 1e-12):
+            out.append(("a1 == 10**loga1", 10 ** float(sn.loga1), float(sn.a1)))
+        for nm in ("a1", "loga1", "a2", "loga2", "sswitch", "nswitch", "m1", "m2", "t_exp", "t_ref"):
+            a, b = getattr(ref, nm), getattr(sn, nm)
+            if (a is None) != (b is None) or (a is not None and not close(float(a), float(b), tol)):
+                out.append(("the same parameters (constructor spelling %s, numbers as %s) define the same curve: attribute %s"
+                            % (case["ctor2"], case["num2"], nm), None if a is None else float(a), None if b is None else float(b)))
+        if (ref.bilinear is True) != (sn.bilinear is True):
+            out.append(("the same parameters define the same curve: bilinear", ref.bilinear, sn.bilinear))
+        t = case.get("t")
+        for s in case["vals"]:
+            a, b = float(ref.n(s, t=t)), float(sn.n(s, t=t))
+            if not close(a, b, tol):
+                out.append(("the same parameters (constructor spelling %s, numbers as %s) define the same curve: n(%r, t=%r)"
+                            % (case["ctor2"], case["num2"], s, t), a, b))
+        for n in case["ns"]:
+            a, b = float(ref.fatigue_strength(n, t=t)), float(sn.fatigue_strength(n, t=t))
+            if not close(a, b, tol):
+                out.append(("the same parameters (constructor spelling %s, numbers as %s) define the same curve: fatigue_strength(%r, t=%r)"
+                            % (case["ctor2"], case["num2"], n, t), a, b))
+    except Exception as e:
+        out.append(("a curve built with constructor spelling %s and numbers as %s evaluates like the float / loga1 one"
+                    % (case["ctor2"], case["num2"]), "values", exc(e)))
+    return out
+
+
+def gen_ctor(rng, c, quick):
+    sw = knee(c)
+    t = None if c["t_ref"] is None else rng.choice([None, 100.0, c["t_ref"], 3.0 * c["t_ref"]])
+    tc = tfac(c, t)
+    vals = [10 ** rng.uniform(-0.3, 3.3) for _ in range(2)] + ([] if sw is None else [sw / tc, sw / tc * (1 - 2.0 ** -30), sw / tc * 1.5])
+    ns = [10 ** rng.uniform(3, 10)] + ([] if sw is None else [c["nswitch"], c["nswitch"] * 3.0])
+    combos = [(a, b) for a in CTORS for b in NUMS]
+    if quick:
+        combos = rng.sample(combos, 6)
+    return [dict(curve=pub(c), kind="ctor", ctor2=a, num2=b, vals=vals, ns=ns, t=t) for a, b in combos]
+
+
+# ----------------------------------------------------------------------------------------------------------------------------
+# stream "main": one scalar float evaluation, all clauses (also used by replay)
+# ----------------------------------------------------------------------------------------------------------------------------
+def main_clauses(c, sn, kind, v, t, im):
+    """clauses of the property at one (curve, s or N, t) given the implementation's value `im`; -> list of (oracle, input-extra, exp, obs)"""
+    out = []
+    if not (math.isfinite(im) and im > 0):
+        out.append(("%s is a positive finite number" % ("n(s,t)" if kind == "n" else "fatigue_strength(N,t)"), {}, "> 0, finite", im))
+        return out
+    if kind == "n":
+        s = v
+        back = float(sn.fatigue_strength(im, t=t))
+        if not close(back, s, 1e-8):
+            out.append(("fatigue_strength(n(s,t),t) == s", {}, s, back))
+        arr = sn.n(np.array([s, s * 1.5]), t=t)
+        if not close(float(arr[0]), im, 1e-14):
+            out.append(("array and scalar evaluation agree", {}, im, float(arr[0])))
+        if t is not None and c["t_ref"] is not None:
+            f = 1.0 if t <= c["t_ref"] else (t / c["t_ref"]) ** c["t_exp"]
+            ref = float(sn.n(s * f))
+            if not close(ref, im, 1e-9):
+                out.append(("thickness acts like multiplying the stress range by (t/t_ref)^k (1 at or below t_ref)", {}, ref, im))
+        # continuity / monotonicity: compare with a neighbour 1e-9 away
+        d = 1e-9
+        hi = float(sn.n(s * (1 + d), t=t))
+        if not (hi < im):
+            out.append(("n strictly decreasing in s", dict(s2=s * (1 + d)), "< %r" % im, hi))
+        mmax = max(c["m1"], c["m2"] or 0.0)
+        if abs(hi - im) > im * (mmax * d * 1.5 + 1e-12):
+            out.append(("n continuous in s (no jump between s and s(1+1e-9))", dict(s2=s * (1 + d)), im, hi))
+        # the slope is -m1 where the capacity is below nswitch and -m2 where it is above (single slope: -m1 everywhere)
+        h = 1e-4
+        n1 = float(sn.n(s * (1 + h), t=t))
+        m = None
+        if c["m2"] is None:
+            m = c["m1"]
+        elif im < c["nswitch"] / 1.001:
+            m = c["m1"]
+        elif n1 > c["nswitch"] * 1.001:
+            m = c["m2"]
+        if m is not None and n1 > 0 and math.isfinite(n1):
+            slope = (math.log(n1) - math.log(im)) / math.log1p(h)
+            if abs(slope + m) > 1e-5 * m:
+                out.append(("log-log slope of n(., t) is -m1 where n < nswitch and -m2 where n > nswitch (the slope changes exactly "
+                            "where capacity equals nswitch)", dict(s2=s * (1 + h)), -m, slope))
+    else:
+        n = v
+        back = float(sn.n(im, t=t))
+        if not close(back, n, 1e-8):
+            out.append(("n(fatigue_strength(N,t),t) == N", {}, n, back))
+        # the same request in other spellings: cycle number / thickness as numpy scalar, 0-d array, integer; thickness positional
+        hows = ["np", "arr0"] + (["int", "npint"] if float(n).is_integer() and abs(n) < 2.0 ** 53 else [])
+        thows = ["float"] if t is None else (["np", "arr0"] + (["int", "npint"] if float(t).is_integer() else []))
+        for j, how in enumerate(hows):
+            th = thows[j % len(thows)]
+            try:
+                if t is None:
+                    im2 = float(sn.fatigue_strength(sp(n, how)))
+                elif j % 2:
+                    im2 = float(sn.fatigue_strength(sp(n, how), sp(t, th)))
+                else:
+                    im2 = float(sn.fatigue_strength(sp(n, how), t=sp(t, th)))
+            except Exception as e:
+                im2 = exc(e)
+            if not close(im2, im, 1e-15):
+                out.append(("fatigue_strength does not depend on the number type of N and t, nor on t being positional or keyword",
+                            dict(nspell=how, tspell=th, call="pos" if j % 2 else "kw"), im, im2))
+        if c["m2"] is not None:
+            # the transition is where capacity equals nswitch: strength above the knee for N < nswitch, below it for N > nswitch
+            tcf = tfac(c, t)
+            sw = float(sn.sswitch)
+            if n < c["nswitch"] * (1 - 1e-6) and not im * tcf > sw * (1 - 1e-9):
+                out.append(("N < nswitch is reached above the transition stress", {}, "> %r" % (sw / tcf), im))
+            if n > c["nswitch"] * (1 + 1e-6) and not im * tcf < sw * (1 + 1e-9):
+                out.append(("N > nswitch is reached below the transition stress", {}, "< %r" % (sw / tcf), im))
+    return out
+
+
 def run(chk):
     chk.extra["rule"] = RULE
     chk.assumptions += ["float correspondence tolerance 1e-9 relative (libm pow/log10 differences are a few ulp)",
-                        "the theorems are over the reals; float rounding is not covered by them"]
+                        "the theorems are over the reals; float rounding is not covered by them",
+                        "float32 stress arrays are evaluated by numpy in single precision: compared at 1e-3 relative",
+                        "the model has no exact-rational execution for this property (10**x, log10 are Float / real only)"]
     rng = chk.rng
     drv = core.Driver()
     ncurves = 120 if chk.quick else 1500
@@ -83,13 +620,25 @@ def run(chk):
     curves = []
     for c in core.load_corpus("C05"):
         curves.append(dict(c["curve"], _s=c.get("s"), _t=c.get("t")))
+    ncorpus = len(curves)
     curves += [gen_curve(rng) for _ in range(ncurves)]
+    built = []
     for c in curves:
-        sn, kw = build(c)
-        ct = curve_tokens(c, sn)
+        inp0 = dict(curve=pub(c))
+        try:
+            sn, kw = build(c)
+        except Exception as e:
+            chk.count("sn.build")
+            chk.fail("a valid S-N curve (m1, m2 > 0, a1 > 0, nswitch > 0, t_exp >= 0, t_ref > 0) can be constructed", inp0, "an SNCurve", exc(e))
+            continue
+        built.append(c)
+        ct = curve_tokens(c)
         ts = [None]
         if c["t_ref"] is not None:
-            ts += [c["t_ref"], c["t_ref"] * rng.uniform(0.2, 1.0), c["t_ref"] * rng.uniform(1.0, 6.0), 100.0]
+            tr = c["t_ref"]
+            ts += [tr, tr * rng.uniform(0.2, 1.0), tr * rng.uniform(1.0, 6.0), 100.0]
+            ts += rng.sample([tr * (1 - 2.0 ** -52), tr * (1 + 2.0 ** -52), tr * 1e-6, tr * 1e4, tr * (1 + 2.0 ** -20), 2.0 * tr],
+                             2 if chk.quick else 4)
         if c.get("_t") is not None:
             ts.append(c["_t"])
         else:
@@ -98,6 +647,12 @@ def run(chk):
                 ts.append(30.0)
         lines.append("sn.derived " + ct)
         meta.append(("derived", c, sn, None, None))
+        sw = knee(c)
+        if c["m2"] is not None:
+            try:
+                sw = float(sn.sswitch)        # the implementation's own transition stress: exact ties
+            except Exception:
+                pass
         for t in ts:
             tc = 1.0
             if t is not None and c["t_ref"] is not None:
@@ -106,89 +661,50 @@ def run(chk):
             if c.get("_s") is not None:
                 ss.append(c["_s"])
             if c["m2"] is not None:
-                sw = float(sn.sswitch)
                 for k in (52, 40, 20, 8):
                     ss += [sw / tc * (1 - 2.0 ** -k), sw / tc * (1 + 2.0 ** -k), sw * (1 - 2.0 ** -k), sw * (1 + 2.0 ** -k)]
                 ss += [sw, sw / tc, 0.5 * (sw + sw / tc)]
+            # the same curve in far-away magnitudes (as long as the capacity stays a finite float)
+            for _ in range(2):
+                s = 10 ** rng.uniform(-0.3, 3.3) * 2.0 ** rng.choice([-200, -100, -60, -30, 30, 60, 100, 200])
+                if finite_range(c, s):
+                    ss.append(s)
             for s in ss:
                 lines.append("sn.n %s %s %s" % (ct, fbits(s), "-" if t is None else fbits(t)))
                 meta.append(("n", c, sn, s, t))
-            for n in [10 ** rng.uniform(3, 10) for _ in range(3)] + ([c["nswitch"], c["nswitch"] * (1 + 2 ** -30),
-                                                                      c["nswitch"] * (1 - 2 ** -30)] if c["m2"] else []):
+            for n in [10 ** rng.uniform(3, 10) for _ in range(3)] + [float(rng.randint(1000, 10 ** 9))] + ([c["nswitch"], c["nswitch"] * (1 + 2 ** -30),
+                                                                      c["nswitch"] * (1 - 2 ** -30), c["nswitch"] * (1 + 2.0 ** -52),
+                                                                      c["nswitch"] * (1 - 2.0 ** -53)] if c["m2"] else []):
                 lines.append("sn.strength %s %s %s" % (ct, fbits(n), "-" if t is None else fbits(t)))
                 meta.append(("strength", c, sn, n, t))
             if t is not None and c["t_ref"] is not None:
                 lines.append("sn.tcorr %s %s %s" % (fbits(c["t_exp"]), fbits(c["t_ref"]), fbits(t)))
                 meta.append(("tcorr", c, sn, None, t))
+            # Curve.nArray: float values (both sides of / exactly at the knee, unsorted), integer values, the empty array
+            fv = [10 ** rng.uniform(-0.3, 3.3) for _ in range(3)]
+            iv = [float(rng.randint(1, 3000)) for _ in range(3)]
+            if c["m2"] is not None:
+                k0 = sw / tc
+                fv += [k0, k0 * (1 - 2.0 ** -52), k0 * (1 + 2.0 ** -52), 0.8 * k0, 1.25 * k0, sw]
+                iv += [float(min(60000, max(1, math.floor(k0)))), float(min(60000, math.ceil(k0) + 1)), float(min(60000, max(1, round(k0))))]
+            rng.shuffle(fv)
+            rng.shuffle(iv)
+            for vals in (fv, iv, []):
+                lines.append(("sn.narray %s %s %s" % (ct, "-" if t is None else fbits(t), " ".join(fbits(x) for x in vals))).rstrip())
+                meta.append(("narray", c, sn, (vals, vals is iv), t))
     outs = drv.run(lines)
-    pub = lambda c: {k: v for k, v in c.items() if not k.startswith("_")}
     for (kind, c, sn, v, t), o in zip(meta, outs):
         chk.count("sn." + kind)
         inp = dict(curve=pub(c), t=t)
         if c["m2"] is not None or (t is not None and c["t_ref"] is not None and t > c["t_ref"]):
-            chk.nontriv((kind, tuple(sorted(pub(c).items(), key=str)), v, t))
-        if kind == "derived":
-            if c["m2"] is None:
-                if not (sn.a2 is None and sn.loga2 is None and sn.sswitch is None and o.strip() == "ok -"):
-                    chk.disagree("sn.derived", inp, o, str((sn.loga2, sn.a2, sn.sswitch)))
-            else:
-                m = [unfbits(x) for x in o.split()[1:]]
-                im = [float(sn.loga2), float(sn.a2), float(sn.sswitch)]
-                if not all(close(a, b) for a, b in zip(m, im)):
-                    chk.disagree("sn.derived", inp, m, im)
-                # clause: a2 and loga2 consistent; sswitch is where n == nswitch
-                if not close(10 ** im[0], im[1]):
-                    chk.fail("a2 == 10**loga2", inp, 10 ** im[0], im[1])
-            continue
-        if kind == "tcorr":
-            im = float(sn.thickness_correction(t))
-            if not close(val(o), im):
-                chk.disagree("sn.tcorr", inp, val(o), im)
-            exp = 1.0 if t <= c["t_ref"] else (t / c["t_ref"]) ** c["t_exp"]
-            if not close(im, exp, 1e-12):
-                chk.fail("thickness factor is 1 at or below t_ref and (t/t_ref)^k above", inp, exp, im)
-            continue
+            chk.nontriv((kind, tuple(sorted(pub(c).items(), key=str)), repr(v), t))
         try:
-            im = float(sn.n(v, t=t)) if kind == "n" else float(sn.fatigue_strength(v, t=t))
-        except ValueError:
-            im = "err value"
-        inp["s" if kind == "n" else "n"] = v
-        if not close(val(o), im):
-            chk.disagree("sn." + kind, inp, val(o), im)
-        chk.dist("%s:%s:%s" % (kind, "bilinear" if c["m2"] else "single",
-                               "t=None" if t is None else ("no-thick-params" if c["t_ref"] is None else
-                                                           ("t<=ref" if t <= c["t_ref"] else "t>ref"))))
-        if isinstance(im, str):
-            continue
-        if len(chk.samples) < 5 and c["m2"] and t and c["t_ref"] and t > c["t_ref"]:
-            chk.sample(dict(inp, model=val(o), impl=im))
-        # ---- oracles on the implementation ----------------------------------------------------------------
-        if kind == "n":
-            s = v
-            back = float(sn.fatigue_strength(im, t=t))
-            if not close(back, s, 1e-8):
-                chk.fail("fatigue_strength(n(s,t),t) == s", inp, s, back)
-            arr = sn.n(np.array([s, s * 1.5]), t=t)
-            if not close(float(arr[0]), im, 1e-14):
-                chk.fail("array and scalar evaluation agree", inp, im, float(arr[0]))
-            if t is not None and c["t_ref"] is not None:
-                f = 1.0 if t <= c["t_ref"] else (t / c["t_ref"]) ** c["t_exp"]
-                ref = float(sn.n(s * f))
-                if not close(ref, im, 1e-9):
-                    chk.fail("thickness acts like multiplying the stress range by (t/t_ref)^k (1 at or below t_ref)", inp, ref, im)
-            # continuity / monotonicity: compare with a neighbour 1e-9 away
-            d = 1e-9
-            hi = float(sn.n(s * (1 + d), t=t))
-            if not (hi < im):
-                chk.fail("n strictly decreasing in s", dict(inp, s2=s * (1 + d)), "< %r" % im, hi)
-            mmax = max(c["m1"], c["m2"] or 0.0)
-            if abs(hi - im) > im * (mmax * d * 1.5 + 1e-12):
-                chk.fail("n continuous in s (no jump between s and s(1+1e-9))", dict(inp, s2=s * (1 + d)), im, hi)
-        else:
-            n = v
-            back = float(sn.n(im, t=t))
-            if not close(back, n, 1e-8):
-                chk.fail("n(fatigue_strength(N,t),t) == N", inp, n, back)
+            eval_main(chk, kind, c, sn, v, t, o, inp)
+        except Exception as e:
+            extra = {"s": v} if kind == "n" else ({"n": v} if kind == "strength" else {})
+            chk.fail("every clause can be evaluated: the implementation does not raise on a valid curve, stress range and thickness (%s)"
+                     % kind, dict(dict(curve=pub(c), t=t), **extra), "a value", exc(e))
+    curves = built
     # ---- input types and caller data: integer stresses, float arrays passed twice ----------------------------------------------
     for c in curves[:60 if chk.quick else 600]:
         sn, _ = build(c)
@@ -205,10 +721,14 @@ def run(chk):
             continue
         if not (np.allclose(a_int, a_flt, rtol=1e-13) and np.allclose(s_int, a_flt, rtol=1e-13)):
             chk.fail("scalar, array, integer and float evaluation of n agree", dict(inp, s=ints), a_flt.tolist(), [a_int.tolist(), s_int])
-        arr = np.array([12.5, 45.0, 120.0, 800.0])
-        a0 = arr.copy()
-        r1 = np.array(sn.n(arr, t=t), dtype=float)
-        r2 = np.array(sn.n(arr, t=t), dtype=float)
+        try:
+            arr = np.array([12.5, 45.0, 120.0, 800.0])
+            a0 = arr.copy()
+            r1 = np.array(sn.n(arr, t=t), dtype=float)
+            r2 = np.array(sn.n(arr, t=t), dtype=float)
+        except Exception as e:
+            chk.fail("n evaluates a float array twice", inp, "values", exc(e))
+            continue
         if not (np.array_equal(arr, a0) and np.array_equal(r1, r2)):
             chk.fail("evaluating n does not modify the caller's stress array (a second call gives the same answer)", dict(inp, s=a0.tolist()),
                      r1.tolist(), r2.tolist())
@@ -216,40 +736,231 @@ def run(chk):
     for c in curves:
         if c["m2"] is None:
             continue
-        sn, _ = build(c)
-        inp = dict(curve=pub(c))
-        sw = float(sn.sswitch)
+        inp = dict(curve=pub(c), kind="switch")
         chk.count("sn.switch")
-        if not close(float(sn.n(sw)), c["nswitch"], 1e-9):
-            chk.fail("n(sswitch) == nswitch", inp, c["nswitch"], float(sn.n(sw)))
-        for s, m in ((sw * 1.01, c["m1"]), (sw * 0.99, c["m2"])):
-            slope = (math.log(float(sn.n(s * 1.0001))) - math.log(float(sn.n(s)))) / math.log(1.0001)
-            if abs(slope + m) > 1e-5 * m:
-                chk.fail("log-log slope is -m1 above and -m2 below the transition stress", dict(inp, s=s), -m, slope)
+        try:
+            for oracle, extra, e, o in switch_clauses(c):
+                chk.fail(oracle, dict(inp, **extra), e, o)
+        except Exception as e:
+            chk.fail("the transition clauses can be evaluated (no exception)", inp, "values", exc(e))
+    # ---- spellings, histories, constructors ---------------------------------------------------------------------------
+    nsp = ncorpus + (60 if chk.quick else 500)
+    nshrunk = 0
+    for stream, gen, runner, sub in (
+            ("sn.spell", lambda c: gen_spell(rng, c, chk.quick), run_spell, curves[:nsp]),
+            ("sn.history", lambda c: [gen_history(rng, c, 14) for _ in range(1 if chk.quick else 2)], run_history, curves[:nsp]),
+            ("sn.ctor", lambda c: gen_ctor(rng, c, chk.quick), run_ctor, curves[:nsp])):
+        for c in sub:
+            for case in gen(c):
+                chk.count(stream)
+                t = case.get("t")
+                if c["m2"] is not None or stream == "sn.history" or (t is not None and c["t_ref"] is not None and t > c["t_ref"]):
+                    chk.nontriv((stream, repr(sorted(case.items(), key=str))))
+                chk.dist("%s:%s" % (stream, case.get("cont") or case.get("ctor2") or "ops"))
+                try:
+                    res = runner(case)
+                except Exception as e:
+                    res = [("the clauses of stream %s can be evaluated (no exception)" % stream, "values", exc(e))]
+                if res and stream == "sn.history" and nshrunk < 3:
+                    nshrunk += 1
+                    case, res = shrink_history(case, res)
+                for oracle, e, o in res:
+                    chk.fail(oracle, case, e, o)
+
+
+def switch_clauses(c):
+    out = []
+    sn, _ = build(c)
+    sw = float(sn.sswitch)
+    if not close(float(sn.n(sw)), c["nswitch"], 1e-9):
+        out.append(("n(sswitch) == nswitch", {}, c["nswitch"], float(sn.n(sw))))
+    for s, m in ((sw * 1.01, c["m1"]), (sw * 0.99, c["m2"])):
+        slope = (math.log(float(sn.n(s * 1.0001))) - math.log(float(sn.n(s)))) / math.log(1.0001)
+        if abs(slope + m) > 1e-5 * m:
+            out.append(("log-log slope is -m1 above and -m2 below the transition stress", dict(s=s), -m, slope))
+    # the same with a thickness: the transition is where the CAPACITY equals nswitch
+    if c["t_ref"] is not None:
+        for t in (c["t_ref"] * 0.5, c["t_ref"] * 4.0):
+            f = tfac(c, t)
+            if not close(float(sn.n(sw / f, t=t)), c["nswitch"], 1e-9):
+                out.append(("n(sswitch / (t/t_ref)^k, t) == nswitch", dict(t=t), c["nswitch"], float(sn.n(sw / f, t=t))))
+            if not close(float(sn.fatigue_strength(c["nswitch"], t=t)) * f, sw, 1e-9):
+                out.append(("fatigue_strength(nswitch, t) (t/t_ref)^k == sswitch", dict(t=t), sw, float(sn.fatigue_strength(c["nswitch"], t=t)) * f))
+    return out
+
+
+def eval_main(chk, kind, c, sn, v, t, o, inp):
+    if kind == "derived":
+        if not close(float(sn.a1), 10 ** float(sn.loga1), 1e-12):
+            chk.fail("a1 == 10**loga1", inp, 10 ** float(sn.loga1), float(sn.a1))
+        if not close(float(sn.loga1), model_loga1(c), 1e-13):
+            chk.disagree("sn.derived", inp, model_loga1(c), float(sn.loga1))
+        if c["m2"] is None:
+            if not (sn.a2 is None and sn.loga2 is None and sn.sswitch is None and o.strip() == "ok -"):
+                chk.disagree("sn.derived", inp, o, str((sn.loga2, sn.a2, sn.sswitch)))
+        else:
+            m = [unfbits(x) for x in o.split()[1:]]
+            im = [float(sn.loga2), float(sn.a2), float(sn.sswitch)]
+            if not all(close(a, b) for a, b in zip(m, im)):
+                chk.disagree("sn.derived", inp, m, im)
+            # clause: a2 and loga2 consistent; sswitch is where n == nswitch
+            if not close(10 ** im[0], im[1]):
+                chk.fail("a2 == 10**loga2", inp, 10 ** im[0], im[1])
+        return
+    if kind == "tcorr":
+        im = float(sn.thickness_correction(t))
+        if not close(val(o), im):
+            chk.disagree("sn.tcorr", inp, val(o), im)
+        exp = 1.0 if t <= c["t_ref"] else (t / c["t_ref"]) ** c["t_exp"]
+        if not close(im, exp, 1e-12):
+            chk.fail("thickness factor is 1 at or below t_ref and (t/t_ref)^k above", inp, exp, im)
+        # other spellings of the same thickness
+        for how in ("np", "arr0") + (("int", "npint") if float(t).is_integer() else ()):
+            try:
+                im2 = float(sn.thickness_correction(sp(t, how)))
+            except Exception as e:
+                im2 = exc(e)
+            if not close(im2, im, 1e-15):
+                chk.fail("thickness factor does not depend on the number type of t", dict(inp, tspell=how), im, im2)
+        return
+    if kind == "narray":
+        vals, integral = v
+        inp = dict(inp, kind="narray", vals=vals)
+        if o.startswith("ok"):
+            model = [unfbits(x) for x in o.split()[1:]]
+        else:
+            model = o
+        conts = ["ndarray", "list"] + (["i64", "ilist"] if integral and vals else [])
+        for cont in conts:
+            obj = container(vals, cont)[0] if vals else (np.array([], dtype=float) if cont == "ndarray" else [])
+            try:
+                r = sn.n(obj, t=t)
+                im = np.asarray(r, dtype=float)
+                im = im.tolist() if im.shape == (len(vals),) else "shape %r" % (im.shape,)
+            except ValueError as e:
+                im = "err value"
+                if valid_t(c, t):
+                    chk.fail("n(<%s>) returns values for every valid curve, stress ranges and thickness" % cont, inp, "values", exc(e))
+            if isinstance(model, str) or isinstance(im, str):
+                same = model == im
+            else:
+                same = len(model) == len(im) and all(close(a, b) for a, b in zip(model, im))
+            if not same:
+                chk.disagree("sn.narray", dict(inp, cont=cont), model, im)
+        chk.dist("narray:%s:%s" % ("int" if integral else ("empty" if not vals else "float"),
+                                   "t=None" if t is None else ("no-thick-params" if c["t_ref"] is None else "t")))
+        return
+    try:
+        im = float(sn.n(v, t=t)) if kind == "n" else float(sn.fatigue_strength(v, t=t))
+    except ValueError as e:
+        im = "err value"
+        if valid_t(c, t):
+            chk.fail("%s returns a value for every valid curve, %s and thickness" % (
+                ("n", "stress range") if kind == "n" else ("fatigue_strength", "cycle number")),
+                dict(inp, **{"s" if kind == "n" else "n": v}), "a value", exc(e))
+    inp["s" if kind == "n" else "n"] = v
+    if not close(val(o), im):
+        chk.disagree("sn." + kind, inp, val(o), im)
+    chk.dist("%s:%s:%s" % (kind, "bilinear" if c["m2"] else "single",
+                           "t=None" if t is None else ("no-thick-params" if c["t_ref"] is None else
+                                                       ("t<=ref" if t <= c["t_ref"] else "t>ref"))))
+    if isinstance(im, str):
+        return
+    if len(chk.samples) < 5 and c["m2"] and t and c["t_ref"] and t > c["t_ref"]:
+        chk.sample(dict(inp, model=val(o), impl=im))
+    # ---- oracles on the implementation ----------------------------------------------------------------
+    for oracle, extra, e, ob in main_clauses(c, sn, kind, v, t, im):
+        chk.fail(oracle, dict(inp, **extra), e, ob)
 
 
 def replay(rp):
     inp = rp["input"]
-    sn, _ = build(inp["curve"])
-    t = inp.get("t")
+    kind = inp.get("kind")
     bad = 0
-    if "s" in inp:
-        s = inp["s"]
-        n = float(sn.n(s, t=t))
-        back = float(sn.fatigue_strength(n, t=t))
-        print("n(s,t) =", n, " fatigue_strength(n,t) =", back, " s =", s)
-        if not close(back, s, 1e-8):
-            print("FAILS: inverse")
-            bad += 1
-        hi = float(sn.n(s * (1 + 1e-9), t=t))
-        mmax = max(inp["curve"]["m1"], inp["curve"]["m2"] or 0.0)
-        if not hi < n or abs(hi - n) > n * (mmax * 1.5e-9 + 1e-12):
-            print("FAILS: continuity / monotonicity", n, hi)
-            bad += 1
-        if t is not None and inp["curve"]["t_ref"] is not None:
-            f = 1.0 if t <= inp["curve"]["t_ref"] else (t / inp["curve"]["t_ref"]) ** inp["curve"]["t_exp"]
-            if not close(float(sn.n(s * f)), n):
-                print("FAILS: thickness scaling")
+    if kind in ("spell", "history", "ctor"):
+        res = dict(spell=run_spell, history=run_history, ctor=run_ctor)[kind](inp)
+        for oracle, e, o in res:
+            print("FAILS:", oracle, "\n   expected", e, "\n   observed", o)
+        bad = len(res)
+        print("replay: %d failing clause(s)" % bad)
+        return 1 if bad else 0
+    try:
+        sn, _ = build(inp["curve"])
+    except Exception as e:
+        print("FAILS: the curve cannot be constructed:", exc(e))
+        print("replay: 1 failing clause(s)")
+        return 1
+    c = inp["curve"]
+    t = inp.get("t")
+    if kind == "switch":
+        res = switch_clauses(c)
+        for oracle, extra, e, o in res:
+            print("FAILS:", oracle, extra, "expected", e, "observed", o)
+        bad = len(res)
+    elif kind == "types":
+        ints = [3, 30, 300, 3000]
+        try:
+            a_int = np.asarray(sn.n(np.array(ints), t=t), dtype=float)
+            a_flt = np.asarray(sn.n(np.array(ints, dtype=float), t=t), dtype=float)
+            s_int = [float(sn.n(v, t=t)) for v in ints]
+            if not (np.allclose(a_int, a_flt, rtol=1e-13) and np.allclose(s_int, a_flt, rtol=1e-13)):
+                print("FAILS: integer / float / scalar / array agreement", a_flt, a_int, s_int)
                 bad += 1
+            arr = np.array([12.5, 45.0, 120.0, 800.0])
+            a0 = arr.copy()
+            r1 = np.array(sn.n(arr, t=t), dtype=float)
+            r2 = np.array(sn.n(arr, t=t), dtype=float)
+            if not (np.array_equal(arr, a0) and np.array_equal(r1, r2)):
+                print("FAILS: caller's array modified / second call differs", arr, r1, r2)
+                bad += 1
+        except Exception as e:
+            print("FAILS: raises", exc(e))
+            bad += 1
+    elif kind == "narray":
+        for cont in ("ndarray", "list", "i64", "ilist"):
+            if cont.startswith("i") and not all(float(x).is_integer() for x in inp["vals"]):
+                continue
+            try:
+                obj = container(inp["vals"], cont)[0] if inp["vals"] else []
+                r = np.asarray(sn.n(obj, t=t), dtype=float).ravel().tolist()
+                ref = [float(sn.n(float(x), t=t)) for x in inp["vals"]]
+                print(cont, r, "scalar:", ref)
+                if not (len(r) == len(ref) and all(close(a, b, 1e-13) for a, b in zip(r, ref))):
+                    print("FAILS: array and scalar evaluation agree (%s)" % cont)
+                    bad += 1
+            except Exception as e:
+                print(cont, "raises", exc(e))
+                if valid_t(c, t):
+                    bad += 1
+    elif "s" in inp or "n" in inp:
+        which = "n" if "s" in inp else "strength"
+        v = inp["s"] if "s" in inp else inp["n"]
+        try:
+            im = float(sn.n(v, t=t)) if which == "n" else float(sn.fatigue_strength(v, t=t))
+            print("%s(%r, t=%r) = %r" % (which, v, t, im))
+            res = main_clauses(c, sn, which, v, t, im)
+            for oracle, extra, e, o in res:
+                print("FAILS:", oracle, extra, "expected", e, "observed", o)
+            bad = len(res)
+        except Exception as e:
+            print("raises", exc(e))
+            bad = 1 if valid_t(c, t) else 0
+    elif t is not None and c.get("t_ref") is not None:
+        try:
+            im = float(sn.thickness_correction(sp(t, inp.get("tspell", "float"))))
+            exp = tfac(c, t)
+            print("thickness_correction(%r) = %r, expected %r" % (t, im, exp))
+            bad = 0 if close(im, exp, 1e-12) else 1
+        except Exception as e:
+            print("raises", exc(e))
+            bad = 1
+    else:
+        try:
+            ok = close(float(sn.a1), 10 ** float(sn.loga1), 1e-12) and (sn.a2 is None or close(10 ** float(sn.loga2), float(sn.a2)))
+            print("a1, loga1, a2, loga2 =", sn.a1, sn.loga1, sn.a2, sn.loga2)
+            bad = 0 if ok else 1
+        except Exception as e:
+            print("raises", exc(e))
+            bad = 1
     print("replay: %d failing clause(s)" % bad)
     return 1 if bad else 0
